@@ -58,6 +58,8 @@ pub enum W {
     Count,
     Last,
     Fallback { val: i64, display: u8 },
+    /// `fallback` to a value with an audible destructor (C11 only)
+    FallbackBell,
     FallbackWith { kind: u8, display: u8 },
     Guard { kind: u8, msg: S },
     Parse { kind: u8 },
@@ -504,6 +506,9 @@ fn build_wrap(w: &W, p: P) -> P {
                 _ => f.boxed(),
             }
         }
+        W::FallbackBell => p
+            .fallback(Val::Bell(val::Bell { armed: true }))
+            .boxed(),
         W::FallbackWith { kind, display } => {
             let kind = *kind;
             let f = p.fallback_with(move || -> Result<Val, String> {
@@ -715,6 +720,7 @@ impl W {
             W::Count => "count".into(),
             W::Last => "last".into(),
             W::Fallback { display, .. } => format!("fb{}", display),
+            W::FallbackBell => "fbbell".into(),
             W::FallbackWith { kind, display } => format!("fbw{}{}", kind, display),
             W::Guard { kind, .. } => format!("guard{}", kind),
             W::Parse { kind } => format!("parse{}", kind),
@@ -740,6 +746,17 @@ fn c(b: bool) -> &'static str {
 }
 
 impl Opts {
+    /// how many values with an audible destructor the definition owns
+    pub fn bells(&self) -> usize {
+        let mut n = 0;
+        self.root.walk(&mut |s| {
+            if let Shape::Wrap(W::FallbackBell, _) = s {
+                n += 1;
+            }
+        });
+        n
+    }
+
     /// all environment variable names declared anywhere in the definition
     pub fn declared_envs(&self) -> Vec<S> {
         let mut out = Vec::new();
@@ -897,6 +914,7 @@ impl W {
                 ("val", J::Int(*val)),
                 ("display", J::Int(*display as i64)),
             ]),
+            W::FallbackBell => J::obj(vec![("w", J::s("fallback_bell"))]),
             W::FallbackWith { kind, display } => J::obj(vec![
                 ("w", J::s("fallback_with")),
                 ("kind", J::Int(*kind as i64)),
@@ -945,6 +963,7 @@ impl W {
                 val: j.req("val")?.as_i64()?,
                 display,
             },
+            "fallback_bell" => W::FallbackBell,
             "fallback_with" => W::FallbackWith { kind, display },
             "guard" => W::Guard {
                 kind,
